@@ -72,10 +72,16 @@ def oracle_nearest(stations, qlons, qlats, tol, unique, exact, missing, dl=dlon_
     for ql, qa in zip(qlons, qlats):
         d = [math.hypot(dl(sl, ql), sa - qa) for sl, sa in stations]
         dmin = min(d)
-        if abs(dmin - tol) <= EPS:
+        # "fails when that distance EXCEEDS the tolerance": a distance exactly equal to the tolerance is in range. The equality
+        # is pinned only where it is exact in IEEE arithmetic (the station differs from the query in one coordinate only, so
+        # sqrt(x*x) == |x|); any other distance within EPS of the tolerance is don't-care.
+        jmin = d.index(dmin)
+        one_axis = dl(stations[jmin][0], ql) == 0.0 or stations[jmin][1] == qa
+        exact_eq = (dmin == tol) and one_axis
+        if abs(dmin - tol) <= EPS and not exact_eq:
             return "dontcare", None
         ties = [j for j, x in enumerate(d) if x <= dmin + EPS]
-        per.append((dmin, ties, dmin < tol))
+        per.append((dmin, ties, dmin < tol or exact_eq))
     if missing == "raise" and any(not p[2] for p in per):
         return "fail", None
     inr = [p for p in per if p[2]]
@@ -200,6 +206,10 @@ def station_slab(j):
 def build_dataset(stations, layout="site"):
     import xarray as xr
 
+    coord_dtype = float
+    if layout.endswith("/int"):
+        layout, coord_dtype = layout[:-4], np.int64   # whole-degree station coordinates stored as integers
+
     n = len(stations)
     assert 1 <= n <= NF
     e = np.stack([station_slab(j) for j in range(n)])
@@ -212,8 +222,8 @@ def build_dataset(stations, layout="site"):
     ds = xr.Dataset(
         {
             "efth": (dims, e),
-            "lon": (("site",), np.array([float(s[0]) for s in stations])),
-            "lat": (("site",), np.array([float(s[1]) for s in stations])),
+            "lon": (("site",), np.array([float(s[0]) for s in stations]).astype(coord_dtype)),
+            "lat": (("site",), np.array([float(s[1]) for s in stations]).astype(coord_dtype)),
         },
         coords=coords,
     )
@@ -221,7 +231,7 @@ def build_dataset(stations, layout="site"):
 
 
 def pristine(ds, stations):
-    return (np.array_equal(ds["lon"].values, np.array([float(s[0]) for s in stations]))
+    return (np.array_equal(np.asarray(ds["lon"].values, dtype=float), np.array([float(s[0]) for s in stations]))
             and np.array_equal(ds["lat"].values, np.array([float(s[1]) for s in stations])))
 
 
@@ -482,11 +492,11 @@ def menus(tier, seed):
     if tier == "quick":
         st = [(x, 0.0) for x in near] + [(90.0, 0.0), (270.0, 0.0), (so, slat), (360 - so, slat)]
         st_idw = [(x, 0.0) for x in near] + [(so, slat), (360 - so, slat)]
-        tol_n, tol_i, tol_b, msites = [0.3, 1.2, 5.0], [0.3, 1.2, 5.0], [0.0, 1.2], [1, 2, 4]
+        tol_n, tol_i, tol_b, msites = [0.3, 1.2, 5.0, 0.0, float(so)], [0.3, 1.2, 5.0], [0.0, 1.2], [1, 2, 4]
     else:
         st = [(x, 0.0) for x in near] + [(90.0, 0.0), (270.0, 0.0)] + [(x, slat) for x in near]
         st_idw = st[:6] + [(so, slat), (360 - so, slat)]
-        tol_n, tol_i, tol_b, msites = [0.3, 1.2, 5.0, 100.0], [0.3, 1.2, 5.0, 100.0], [0.0, 0.3, 1.2, 5.0], [1, 2, 3, 4]
+        tol_n, tol_i, tol_b, msites = [0.3, 1.2, 5.0, 100.0, 0.0, float(so)], [0.3, 1.2, 5.0, 100.0], [0.0, 0.3, 1.2, 5.0], [1, 2, 3, 4]
     st = [(_num(a), _num(b)) for a, b in st]
     st_idw = [(_num(a), _num(b)) for a, b in st_idw]
     plons = [0, qa, 360 - qb, 360 - so, 180, 180 - qb, 180 + qa, 90.2, 270]  # 360-so and 270 coincide with stations
@@ -563,6 +573,10 @@ def work_items(tier, seed, parts):
         for st in datasets(M["stations_small"], 2):
             for layout in ("site", "time_site"):
                 items.append(dict(part="modes", stations=st, layout=layout))
+        # whole-degree stations whose lon/lat are stored with an integer dtype, fractional queries
+        whole = [(1, 0), (359, 0), (179, 0), (181, 0), (1, 1), (359, -1)]
+        for st in datasets(whole, 2):
+            items.append(dict(part="modes", stations=st, layout="site/int"))
     items.sort(key=lambda it: len(it["stations"]))
     return items, M
 
